@@ -243,7 +243,64 @@ def _sdl_reuse(mask: int, second_ignores: bool, third: bool) -> bool:
     return result(problem == "", True)
 
 
+# ------------------------------------------------------------------ the same declarations delivered in two steps: build_schema(D1), then extend_schema(.., D2)
+from py_gql.sdl import extend_schema  # noqa: E402
+
+TWO_STEP_TARGETS = SPLIT_TARGETS + ("Impl",)
+MOVED = ((), ("Impl",), ("Orphan",), ("Impl", "Orphan"), ("Date",), ("@tag",))
+D2_ORDERS = ("extensions last", "extensions first", "first extension block, definitions reversed, other blocks", "extensions in the middle")   # extension blocks keep their relative order: it is content
+
+
+def _sdl_two_step(target: int, mode: int, moved: int, d2order: int, strict: bool, rec3: bool) -> bool:
+    """
+    pre: 0 <= target < len(TWO_STEP_TARGETS) and 1 <= mode <= 2 and 0 <= moved < len(MOVED) and 0 <= d2order < len(D2_ORDERS)
+    pre: shard_of(target * 2 + mode)
+    post: _
+    """
+    T, M = pick(target, TWO_STEP_TARGETS), concrete_int(mode, 1, 2)
+    MV, DO = pick(moved, MOVED), concrete_int(d2order, 0, len(D2_ORDERS) - 1)
+    ST, R3 = (True if strict else False), (True if rec3 else False)
+    with untraced():
+        rec = S.base_record(dict(desc=True, dep=True, default=12 if R3 else 10, recursion=3 if R3 else 0))
+        split = {T: M} if T else {}
+        defs, exts = S.render(rec, split, parts=True)
+        if any(m not in [n for n, _ in defs] for m in MV):
+            return result(True, False)
+        if "Date" in MV or "@tag" in MV:
+            # a moved type / directive that the first document refers to would make the first document invalid on its own
+            first_text = "\n".join(t for n, t in defs if n not in MV)
+            if ("Date" in MV and "Date" in first_text) or ("@tag" in MV and "@tag" in first_text):
+                return result(True, False)
+        d1 = "\n\n".join(t for n, t in defs if n not in MV)
+        later = [t for n, t in defs if n in MV]
+        if not later and not exts:
+            return result(True, False)
+        d2_parts = {0: later + exts, 1: exts + later, 2: exts[:1] + list(reversed(later)) + exts[1:], 3: later[:1] + exts + later[1:]}[DO]
+        d2 = "\n\n".join(d2_parts)
+        try:
+            first = build_schema(d1)
+        except (SDLError, SchemaError):
+            return result(True, False)          # the first document is not valid on its own (e.g. a default naming a field that only the extension declares)
+        before = S.snapshot(first)
+        try:
+            second = extend_schema(first, d2, strict=ST)
+        except (SDLError, SchemaError) as e:
+            if known.c11_default_uses_extension_field(rec, S.base_only(rec, split)):
+                return result(True, False)
+            return result(False, True)
+        ok = same(S.snapshot(second), S.normal(rec)) and same(S.snapshot(first), before)
+    return result(ok, bool(later) and bool(exts))
+
+
 CONDITIONS = [
+    Cond(
+        name="sdl_two_step", fn=_sdl_two_step, quick=90, thorough=300, per_path=60, shards_quick=16, shards_thorough=16,
+        bound="the generator's declarations delivered in two steps - build_schema(first document) then extend_schema(schema, second document): which definitions come later (none, a type only reachable as an implementation, an "
+              "unreferenced type, both, a custom scalar, a directive definition) x which type is split into extension blocks (10 targets incl. a type that is itself defined in the second document) x split mode x 4 orders of the second "
+              "document (extension blocks before / after / between / reversed w.r.t. the definitions they extend) x strict on/off x recursive inputs: the result holds exactly the declared content, the first schema is unchanged",
+        symbolic={"target,mode,moved,d2order,strict,rec3": "choice"}, assumptions=["oracle: the generator's declared-content record (as sdl_content)"],
+        witness={"target": 9, "mode": 1, "moved": 1, "d2order": 1, "strict": True, "rec3": False},
+    ),
     Cond(name="sdl_text", fn=_sdl_text, kind="concrete", cases=_text_cases, bound="fixed SDL texts (named defects); NOT a solver result"),
     Cond(
         name="sdl_reuse", fn=_sdl_reuse, quick=60, thorough=120,
